@@ -155,7 +155,7 @@ template <class T> static void ortho_p(pbt::Ctx& c) {
 	if (mt > 1e-2L) c.cls("ill-conditioned (tolerance > 1e-2, counted trivial)");
 	else if (off && (v == 9 || n != 1)) c.nontrivial();
 }
-REG2(ortho_p, "ortho", 400000, 12000000,
+REG2(ortho_p, "ortho", 250000, 8000000,
      "one of ortho{RH,LH}_{NO,ZO}, orthoZO/NO/LH/RH, ortho (6 arguments) and ortho (4 arguments, gluOrtho2D) per case; left<right and bottom<top as small ints / symmetric / one side 0 / screen 0..N / "
      "off-centre / far off-centre with widths 1e-3..1e4, 0<near<far with far/near from 1.001 to 1e6; the 8 volume corners must map to the clip cube corners of the variant's convention, dispatching names "
      "must be bit-identical to the selected variant; non-trivial = off-centre volume (translation terms matter), near != 1, tolerance <= 1e-2");
@@ -179,7 +179,7 @@ template <class T> static void frustum_p(pbt::Ctx& c) {
 	if (mt > 1e-2L) c.cls("ill-conditioned (tolerance > 1e-2, counted trivial)");
 	else if (off && n != 1) c.nontrivial();
 }
-REG2(frustum_p, "frustum", 400000, 12000000,
+REG2(frustum_p, "frustum", 250000, 8000000,
      "one of frustum{RH,LH}_{NO,ZO}, frustumZO/NO/LH/RH, frustum per case; near-plane extents and depths as for ortho; near corners (x,y,-+near) and far corners (x f/n, y f/n, -+far) must map to the clip "
      "cube corners with clip w > 0; dispatching names bit-identical to the selected variant; non-trivial = off-centre volume, near != 1, tolerance <= 1e-2");
 
@@ -208,7 +208,7 @@ template <class T> static void perspective_p(pbt::Ctx& c) {
 	if (mt > 1e-2L) c.cls("ill-conditioned (tolerance > 1e-2, counted trivial)");
 	else if (asp != 1 && n != 1) c.nontrivial();
 }
-REG2(perspective_p, "perspective", 400000, 12000000,
+REG2(perspective_p, "perspective", 250000, 8000000,
      "one of perspective{RH,LH}_{NO,ZO}, perspectiveZO/NO/LH/RH, perspective per case; fovy from a table / uniform (0.05,3) / near 0 / near pi, aspect table / 1 / log-uniform (0.1,10) / integer ratios, "
      "0<near<far as for ortho; corners of the frustum with top = near tan(fovy/2) (long double), right = top aspect must map to the clip cube corners; the matrix must equal frustum(-right,right,-top,top,near,far) "
      "of the same convention element by element; dispatching names bit-identical; non-trivial = aspect != 1 (x and y scale differ), near != 1, tolerance <= 1e-2");
@@ -234,7 +234,7 @@ template <class T> static void pfov_p(pbt::Ctx& c) {
 	if (mt > 1e-2L) c.cls("ill-conditioned (tolerance > 1e-2, counted trivial)");
 	else if (w != h && n != 1) c.nontrivial();
 }
-REG2(pfov_p, "perspectiveFov", 400000, 12000000,
+REG2(pfov_p, "perspectiveFov", 250000, 8000000,
      "one of perspectiveFov{RH,LH}_{NO,ZO}, perspectiveFovZO/NO/LH/RH, perspectiveFov per case; fov as for perspective, width/height from a table of screen sizes / integers 1..4096 / log-uniform, depths as for ortho; "
      "corners of the frustum with top = near tan(fov/2), right = top width/height must map to the clip cube corners; the matrix must equal perspective(fov, width/height, near, far) of the same convention element by "
      "element; dispatching names bit-identical; non-trivial = width != height, near != 1, tolerance <= 1e-2");
@@ -256,15 +256,21 @@ template <class T> static M4<T> call_inf(int v, T fovy, T a, T n) {
 	default: return glm::infinitePerspective(fovy, a, n);
 	}
 }
-template <class T> static R check_infinite(pbt::Ctx& c, const char* name, const std::string& a, const Mat& M, R right, R top, R n, Conv cv, int k, R zlimit, bool exact_profile) {
+// depth of the point at infinity straight ahead, (0,0,-+1,0): the limit of z(d), evaluated exactly instead of at a large d
+template <class T> static void depth_at_infinity(const Mat& M, bool lh, int k, R& zinf, R& bound, R& winf) {
+	const R dir = lh ? 1 : -1, cz = M.m[2][2] * dir, cw = M.m[2][3] * dir;
+	winf = cw; zinf = cz / cw;
+	bound = k * U<T>() * (rabs(cz) + rabs(zinf) * rabs(cw)) / rabs(cw);
+}
+template <class T> static R check_infinite(pbt::Ctx& c, const char* name, const std::string& a, const Mat& M, R right, R top, R n, Conv cv, int k, bool exact_profile) {
 	R mt = check_volume<T>(c, name, a, M, -right, right, -top, top, n, n, true, cv, k, 1);  // near corners
-	static const int JS[] = {1, 3, 10, 24, 40, 60};
+	static const int JS[] = {1, 3, 10, 24, 40};
 	const R zn = cv.zo ? 0 : -1;
 	R prev = zn;  // z at 2 near must already be above the near value
-	for (int q = 0; q < 6; ++q) {
+	for (int q = 0; q < 5; ++q) {
 		const int j = JS[q];
 		const R s = ldexpl(1.0L, j), d = n * s;
-		for (int ci = 0; ci < (j == 60 ? 1 : 4); ++ci) {
+		for (int ci = 0; ci < 4; ++ci) {
 			const int ix = ci & 1, iy = ci >> 1;
 			const R p[3] = {(ix ? right : -right) * s, (iy ? top : -top) * s, cv.lh ? d : -d};
 			Corner o; through<T>(M, p, k, o);
@@ -277,14 +283,21 @@ template <class T> static R check_infinite(pbt::Ctx& c, const char* name, const 
 			tol = 8 * o.bound[2] + TINY<T>(); if (tol > mt) mt = tol;
 			if (ci == 0) {
 				if (exact_profile) {
-					const R ez = j == 60 ? zlimit : 1 - (1 - zn) / s;
-					if (!within(c, "infinite z(d) err/tol", rabs(o.ndc[2] - ez), tol + (j == 60 ? ldexpl(2.0L, -60) : 0)))
-						c.failk(std::string(name) + (j == 60 ? "/z-infinity" : "/z-far"), "%s%s: depth at distance near*2^%d -> ndc z = %s, expected %s (%s)", name, a.c_str(), j, numR(o.ndc[2]).c_str(), numR(ez).c_str(), conv_name(cv));
+					const R ez = 1 - (1 - zn) / s;
+					if (!within(c, "infinite z(d) err/tol", rabs(o.ndc[2] - ez), tol))
+						c.failk(std::string(name) + "/z-far", "%s%s: depth at distance near*2^%d -> ndc z = %s, expected %s (%s)", name, a.c_str(), j, numR(o.ndc[2]).c_str(), numR(ez).c_str(), conv_name(cv));
 				}
 				if (!(o.ndc[2] > prev)) c.failk(std::string(name) + "/z-monotone", "%s%s: ndc z = %s at distance near*2^%d is not above z = %s at the previous distance", name, a.c_str(), numR(o.ndc[2]).c_str(), j, numR(prev).c_str());
 				prev = o.ndc[2];
 			}
 		}
+	}
+	R zinf, zb, winf; depth_at_infinity<T>(M, cv.lh, k, zinf, zb, winf);
+	if (!(winf > 0)) c.failk(std::string(name) + "/w-sign", "%s%s: the point at infinity straight ahead gets clip w = %s", name, a.c_str(), numR(winf).c_str());
+	else {
+		if (!(zinf >= prev)) c.failk(std::string(name) + "/z-monotone", "%s%s: ndc z = %s at infinity is below z = %s at distance near*2^40", name, a.c_str(), numR(zinf).c_str(), numR(prev).c_str());
+		if (exact_profile && !within(c, "infinite z(inf) err/tol", rabs(zinf - 1), 8 * zb + TINY<T>()))
+			c.failk(std::string(name) + "/z-infinity", "%s%s: the point at infinity (0,0,%s1,0) -> ndc z = %s, expected +1", name, a.c_str(), cv.lh ? "+" : "-", numR(zinf).c_str());
 	}
 	return mt;
 }
@@ -305,14 +318,14 @@ template <class T> static void infinite_p(pbt::Ctx& c) {
 	const M4<T> G = call_inf<T>(v, fovy, asp, n);
 	if (v >= 4) check_dispatch(c, name, "infinitePerspective", cv, G, call_inf<T>(explicit_of(cv), fovy, asp, n), a);
 	const R top = (R)n * tanl((R)fovy / 2), right = top * (R)asp;
-	R mt = check_infinite<T>(c, name, a, lift(G), right, top, n, cv, 6, 1, true);
+	R mt = check_infinite<T>(c, name, a, lift(G), right, top, n, cv, 6, true);
 	if (mt > 1e-2L) c.cls("ill-conditioned (tolerance > 1e-2, counted trivial)");
 	else if (asp != 1 && n != 1) c.nontrivial();
 }
-REG2(infinite_p, "infinitePerspective", 300000, 9000000,
+REG2(infinite_p, "infinitePerspective", 200000, 6000000,
      "one of infinitePerspective{RH,LH}_{NO,ZO}, infinitePerspective (and infinitePerspectiveLH/RH when they link) per case; fovy, aspect as for perspective, near = 1 / power of two / table / log-uniform 1e-3..1e4; "
-     "near corners -> x,y = -1/+1, z = -1|0; side planes stay at x,y = -1/+1 at distances near*2^j (j = 1,3,10,24,40); depth follows z(d) = 1 - (1 - z_near) near/d, increases with d and reaches +1 within "
-     "tolerance at near*2^60; clip w > 0; unsuffixed name bit-identical to the selected variant; non-trivial = aspect != 1, near != 1");
+     "near corners -> x,y = -1/+1, z = -1|0; side planes stay at x,y = -1/+1 at distances near*2^j (j = 1,3,10,24,40); depth follows z(d) = 1 - (1 - z_near) near/d, increases with d and reaches +1 at the "
+     "point at infinity (0,0,-+1,0); clip w > 0; unsuffixed name bit-identical to the selected variant; non-trivial = aspect != 1, near != 1");
 
 // tweakedInfinitePerspective (Lengyel, cited in the .inl): infinite projection pulled in by ep so that points at infinity stay strictly
 // inside z < 1 on hardware without depth clamping. It has no suffixed variants and its documentation names no macro; the header says the
@@ -330,7 +343,7 @@ template <class T> static void tweaked_p(pbt::Ctx& c) {
 		case 1: { ecls = "ep:table (1e-3, 2.4e-7 ...)"; static const double TB[] = {1e-3, 2.4e-7, 1e-2, 1e-5, 0.0625}; ep = (T)TB[c.draw(5)]; if (ep < 16 * std::numeric_limits<T>::epsilon()) ep = 16 * std::numeric_limits<T>::epsilon(); break; }
 		default: ecls = "ep:log-uniform (16 eps, 0.1)"; ep = (T)c.loguniform(16.0 * (double)std::numeric_limits<T>::epsilon(), 0.1); break;
 	}
-	const char* name = with_ep ? "tweakedInfinitePerspective(ep)" : "tweakedInfinitePerspective";
+	const char* name = with_ep ? "tweakedInfinitePerspective_ep" : "tweakedInfinitePerspective";
 	c.cls(name); c.cls(ecls); c.cls(FV_NAME[fc]); c.cls(AS_NAME[ac]);
 	const std::string a = with_ep ? args<T>({fovy, asp, n, ep}) : args<T>({fovy, asp, n});
 	c.logf("%s%s", name, a.c_str());
@@ -338,21 +351,22 @@ template <class T> static void tweaked_p(pbt::Ctx& c) {
 	const Mat M = lift(G);
 	const R top = (R)n * tanl((R)fovy / 2), right = top * (R)asp;
 	const Conv cv = {false, false};
-	R mt = check_infinite<T>(c, name, a, M, right, top, n, cv, 6, 0, false);
-	// the limit: strictly below 1 (nothing at infinity is clipped), and within ep of 1 (3-argument overload: within 1e-5, its ep is not documented)
-	const R s = ldexpl(1.0L, 60), p[3] = {0, 0, -(R)n * s};
-	Corner o; through<T>(M, p, 6, o);
-	const R zinf = o.ndc[2], tol = 8 * o.bound[2] + ldexpl(2.0L, -60);
-	if (!(zinf < 1)) c.failk(std::string(name) + "/z-infinity-below-1", "%s%s: depth at distance near*2^60 -> ndc z = %s, not below 1", name, a.c_str(), numR(zinf).c_str());
-	const R lim = with_ep ? (R)ep : 1e-5L;
-	if (!((1 - zinf) - tol <= lim * (1 + 1e-3L)))
-		c.failk(std::string(name) + "/z-infinity-within-ep", "%s%s: depth at distance near*2^60 -> ndc z = %s, further than %s from 1", name, a.c_str(), numR(zinf).c_str(), numR(lim).c_str());
+	R mt = check_infinite<T>(c, name, a, M, right, top, n, cv, 6, false);
+	// the limit (depth of the point at infinity): strictly below 1, so that nothing at infinity is clipped by hardware without depth clamping,
+	// and within ep of 1 (3-argument overload: within 1e-5, its ep is not documented)
+	R zinf, zb, winf; depth_at_infinity<T>(M, false, 6, zinf, zb, winf);
+	if (winf > 0) {
+		if (!(zinf < 1)) c.failk(std::string(name) + "/z-infinity-below-1", "%s%s: the point at infinity (0,0,-1,0) -> ndc z = %s, not below 1 (the tweak is lost)", name, a.c_str(), numR(zinf).c_str());
+		const R lim = with_ep ? (R)ep : 1e-5L;
+		if (!((1 - zinf) - 8 * zb <= lim * (1 + 1e-3L)))
+			c.failk(std::string(name) + "/z-infinity-within-ep", "%s%s: the point at infinity (0,0,-1,0) -> ndc z = %s, further than %s from 1", name, a.c_str(), numR(zinf).c_str(), numR(lim).c_str());
+	}
 	if (mt > 1e-2L) c.cls("ill-conditioned (tolerance > 1e-2, counted trivial)");
 	else if (asp != 1 && n != 1) c.nontrivial();
 }
-REG2(tweaked_p, "tweakedInfinitePerspective", 200000, 6000000,
+REG2(tweaked_p, "tweakedInfinitePerspective", 150000, 4000000,
      "3-argument and 4-argument overload (ep = epsilon<T>() / table / log-uniform 16 eps..0.1), fovy, aspect, near as for infinitePerspective; only in the default configuration (right-handed, -1..1: the function has no "
-     "variants and names no macro); near corners -> x,y = -1/+1, z = -1, side planes stay at -1/+1, depth increases with distance, stays strictly below 1 and ends within ep of 1 at near*2^60; non-trivial = aspect != 1, near != 1");
+     "variants and names no macro); near corners -> x,y = -1/+1, z = -1, side planes stay at -1/+1, depth increases with distance, and ends strictly below 1 and within ep of 1 at the point at infinity; non-trivial = aspect != 1, near != 1");
 #endif
 
 // =============================================================================================
@@ -513,7 +527,7 @@ template <class T, class VPT> static void project_case(pbt::Ctx& c) {
 	else if (kind != 0 && (vpr[0] != 0 || vpr[1] != 0) && vpr[2] != vpr[3]) c.nontrivial();
 }
 template <class T> static void project_p(pbt::Ctx& c) { if (c.coin()) project_case<T, int>(c); else project_case<T, T>(c); }
-REG2(project_p, "project_unProject", 150000, 5000000,
+REG2(project_p, "project_unProject", 120000, 4000000,
      "projectNO/ZO, unProjectNO/ZO and the dispatching project/unProject with ivec4 and vec4 viewports (origin 0 / non-zero / fractional, sizes 1..4096); projection = identity (object space is the clip cube) or "
      "ortho/frustum/perspective of either handedness in the depth convention of the function under test; model = identity / translation / axis rotation / random rigid / rigid x 2^k; object point = corner / face / interior "
      "of the view volume; project against the gluProject definition in long double with its forward bound, volume corners -> viewport corners with depth 0/1, unProject against an exact Gauss-Jordan solve, round trips both "
@@ -574,13 +588,15 @@ template <class T, class VPT> static void pick_case(pbt::Ctx& c) {
 	if (offc && de[0] != de[1] && (R)de[0] != vpr[2] && (R)de[1] != vpr[3]) c.nontrivial();
 }
 template <class T> static void pick_p(pbt::Ctx& c) { if (c.coin()) pick_case<T, int>(c); else pick_case<T, T>(c); }
-REG2(pick_p, "pickMatrix", 300000, 9000000,
+REG2(pick_p, "pickMatrix", 200000, 6000000,
      "center at the viewport centre / an integer pixel / anywhere from -0.2 to 1.2 of the viewport, delta > 0 small integers / the viewport size / log-uniform, ivec4 and vec4 viewports with zero, non-zero and fractional "
      "origin; the four corners center +- delta/2, expressed in ndc of that viewport, must map to (+-1,+-1) and z, w must pass through unchanged (all other elements exactly those of the identity); "
      "non-trivial = centre off the viewport centre in x and y, delta.x != delta.y, delta != viewport size");
 
 // =============================================================================================
-// declared and documented in matrix_clip_space.hpp => must be usable: the link pre-pass (lib/specs/C08.py) builds a program calling each
+// declared and documented in matrix_clip_space.hpp => must be usable: the link pre-pass (lib/specs/C08.py) builds a program calling each.
+// The result does not depend on the clip-control macros, so the target is registered in the default configuration only.
+#if !defined(C08_EXPECT_LH) && !defined(C08_EXPECT_ZO)
 static void declared_p(pbt::Ctx& c) {
 	const int i = (int)c.draw(2);
 	c.nontrivial();
@@ -594,5 +610,6 @@ static void declared_p(pbt::Ctx& c) {
 PBT_SWEEP("declared_functions_link/" C08_CFG, declared_p, 2, 1, 1,
           "the two half-suffixed names infinitePerspectiveLH / infinitePerspectiveRH that matrix_clip_space.hpp declares without a definition in the same header: a two-line program calling each with float and double "
           "is compiled and linked by the pre-pass; complete enumeration (when they link they are exercised by the infinitePerspective targets)");
+#endif
 
 int main(int argc, char** argv) { return pbt::pbt_main(argc, argv, "C08"); }
